@@ -22,6 +22,8 @@ def mc_cp(name, quick, tq=600, tt=3000):
     return {"module": "MC_CheckPoints", "cfg": {"quick": ("MC_CheckPoints_%s.cfg" % name) if quick else None, "thorough": "MC_CheckPoints_%s.cfg" % name},
             "timeout": {"quick": tq, "thorough": tt}, "workers": 8}
 
+MC_FILTERSYNC = {"module": "MC_FilterSync", "cfg": "MC_FilterSync.cfg", "timeout": {"quick": 600, "thorough": 1800}, "workers": 6}
+
 FS_ASSUMPTIONS = COMMON_ASSUMPTIONS + [
     "the index is read back by a raw scan of the RocksDB keyspace after every event and compared with the ground truth TLC derives from the world (Index.tla)",
     "Golomb-coded filters may match more blocks than necessary: the specification only requires the true matches",
@@ -31,13 +33,13 @@ FS_ASSUMPTIONS = COMMON_ASSUMPTIONS + [
 CHECKS = {
     "C03": {
         "trace_module": "Trace_FilterSync",
-        "mc": [],
+        "mc": [MC_FILTERSYNC],
         "drivers": [fsync("sync", 25, 200, 3, 8), fsync("fetch", 20, 150, 2, 6), fsync("pump", 10, 60, 1, 3)],
         "assumptions": FS_ASSUMPTIONS,
     },
     "C04": {
         "trace_module": "Trace_FilterSync",
-        "mc": [],
+        "mc": [MC_FILTERSYNC],
         "drivers": [fsync("fork", 40, 300, 4, 10), fsync("forkrand", 15, 100, 1, 4)],
         "assumptions": FS_ASSUMPTIONS,
     },
@@ -64,25 +66,25 @@ CHECKS = {
     },
     "C09": {
         "trace_module": "Trace_FilterSync",
-        "mc": [],
+        "mc": [MC_FILTERSYNC],
         "drivers": [fsync("scripts", 30, 250, 4, 10), fsync("sync", 10, 60, 1, 4)],
         "assumptions": FS_ASSUMPTIONS,
     },
     "C06": {
         "trace_module": "Trace_FilterSync",
-        "mc": [],
+        "mc": [MC_FILTERSYNC],
         "drivers": [fsync("advsub", 25, 200, 3, 8), fsync("adv", 15, 120, 2, 6)],
         "assumptions": FS_ASSUMPTIONS + ["filter hashes are identified with block ids (SimChain gives every block a unique filter); tampered bytes are id 0"],
     },
     "C02": {
         "trace_module": "Trace_FilterSync",
-        "mc": [],
+        "mc": [MC_FILTERSYNC],
         "drivers": [fsync("adv", 30, 250, 4, 10), fsync("fetch", 10, 80, 1, 4)],
         "assumptions": FS_ASSUMPTIONS,
     },
     "C08": {
         "trace_module": "Trace_FilterSync",
-        "mc": [],
+        "mc": [MC_FILTERSYNC],
         "drivers": [{"name": "filtersync-crash", "driver": "filtersync", "args": ["mode=crash"], "trace_module": "Trace_FilterSync",
                      "n": {"quick": 1, "thorough": 6}, "procs": {"quick": 6, "thorough": 12},
                      "tier_args": {"quick": ["maxk=45"], "thorough": ["maxk=100000"]}}],
@@ -93,8 +95,8 @@ CHECKS = {
     },
     "C16": {
         "trace_module": "Trace_FilterSync",
-        "mc": [],
-        "drivers": [fsync("fetch", 30, 250, 3, 8), fsync("fork", 15, 100, 2, 4)],
+        "mc": [MC_FILTERSYNC],
+        "drivers": [fsync("fetch", 30, 250, 3, 8), fsync("fork", 15, 100, 2, 4), fsync("forkrand", 25, 150, 2, 4)],
         "assumptions": FS_ASSUMPTIONS,
     },
     "C13": {
@@ -111,7 +113,7 @@ CHECKS = {
     },
     "C17": {
         "trace_module": "Trace_FilterSync",
-        "mc": [],
+        "mc": [MC_FILTERSYNC],
         "drivers": [{"name": "concurrent", "driver": "concurrent", "args": [], "trace_module": "Trace_FilterSync",
                      "n": {"quick": 10, "thorough": 60}, "procs": {"quick": 6, "thorough": 14},
                      "tier_args": {"quick": ["pairs=3", "maxk=4"], "thorough": ["pairs=6", "maxk=12"]}, "timeout": 3000}],
@@ -189,7 +191,7 @@ CHECKS = {
     "C12": {
         "trace_module": "Trace_PeerSync",
         "mc": [MC_PEERSYNC],
-        "drivers": [peersync("tip", 120, 800, 2, 8), peersync("honest", 30, 200, 2, 4)],
+        "drivers": [peersync("tip", 120, 800, 2, 8), peersync("tipeq", 60, 400, 1, 4), peersync("honest", 30, 200, 2, 4)],
         "assumptions": COMMON_ASSUMPTIONS,
     },
 }
